@@ -85,7 +85,15 @@ def step (s : S) : List String → S × String
   | ["dump"] => (s, dump s)
   | _ => (s, "bad-op")
 
-def machine : Machine := ⟨S, init, step⟩
+/-- two transfers in one task list / batch: each all-or-nothing on its own, in order -/
+def step2 (s : S) : List String → S × String
+  | ["tx2", _route, a, b, n, c, d, m] =>
+    let r1 := step s ["transfer", a, b, n]
+    let r2 := step r1.1 ["transfer", c, d, m]
+    if r1.2 = "bad-op" ∨ r2.2 = "bad-op" then (s, "bad-op") else (r2.1, r1.2 ++ "," ++ r2.2)
+  | ws => step s ws
+
+def machine : Machine := ⟨S, init, step2⟩
 
 /-! judge: (1) every output equals the spec machine's (each operation changes exactly the balances
     it names by exactly its amount, or fails without effect); (2) independently of the model, on
